@@ -15,7 +15,7 @@ theorem getS_setS_same {t : Spec.SSt} {l : Nat} (hl : l < t.layers.length) (x : 
 
 theorem getS_setS_ne (t : Spec.SSt) {l l' : Nat} (x : Spec.SLayer) (h : l' ≠ l) :
     Spec.getS (Spec.setS t l x) l' = Spec.getS t l' := by
-  simp [Spec.getS, Spec.setS, List.getD, List.getElem?_set, Ne.symm h]
+  simp [Spec.getS, Spec.setS, List.getD, Ne.symm h]
 
 @[simp] theorem setS_len (t : Spec.SSt) (l : Nat) (x : Spec.SLayer) :
     (Spec.setS t l x).layers.length = t.layers.length := by
@@ -559,9 +559,11 @@ theorem fwdBwd_rel {c s t} (hw0 : 0 < c.world) (h : Rel c s t) (train : Bool)
   have he' : OK ((revLayers c).foldl (bwdStep c (s.hyper.decay.val s.steps))
       ((layerIdxs c).foldl (fwdStep c (s.hyper.decay.val s.steps)) s)) := he
   have he1 := foldl_ok _ (fun s x => bwdStep_ok) _ _ he'
-  refine foldl_rel (Rel c) _ _ _ (fun s x => bwdStep_ok)
+  have e1 : Spec.revIdxs (Spec.ofCfg c) = revLayers c := rfl
+  have e2 : Spec.idxs (Spec.ofCfg c) = layerIdxs c := rfl
+  rw [e1, e2]
+  refine foldl_rel (Rel c) (bwdStep c (s.hyper.decay.val s.steps)) (sBwdStep (Spec.ofCfg c) (s.hyper.decay.val s.steps)) (revLayers c) (fun s x => bwdStep_ok)
     (fun s t l hl h he => bwdStep_rel hw0 _ (mem_revLayers.mp hl) h he) _ _ ?_ he'
-  exact foldl_rel (Rel c) _ _ _ (fun s x => fwdStep_ok)
+  exact foldl_rel (Rel c) (fwdStep c (s.hyper.decay.val s.steps)) (sFwdStep (Spec.ofCfg c) (s.hyper.decay.val s.steps)) (layerIdxs c) (fun s x => fwdStep_ok)
     (fun s t l hl h he => fwdStep_rel hw0 _ (mem_layerIdxs.mp hl) h he) _ _ h he1
-
 end KV.Refine
